@@ -75,35 +75,44 @@ Proof.
   intros H. cbn [firstn name_lexeme]. rewrite H. cbn [andb]. apply span_firstn_all.
 Qed.
 
-(* a NAME token is a name and no keyword *)
-Theorem lex_one_name_ok inp skip lexeme rest :
-  lex_one inp = Some (NAME, skip, lexeme, rest) -> pname_ok lexeme = true.
+(* stated for an arbitrary rule table (so that the kernel never unfolds the grammar table while checking it): what
+   the table must satisfy is passed in as hypotheses *)
+Lemma lex_one_best (rules : list (kind * shape)) inp k skip lexeme rest :
+  lex_one_with rules inp = Some (k, skip, lexeme, rest) ->
+  exists sh n, best_rule rules inp None = Some (k, sh, n) /\ lexeme = firstn n inp /\ rest = skipn n inp.
 Proof.
-  intros H. rewrite lex_one_unfold in H. unfold lex_one_with in H.
-  destruct (best_rule lexer_rules inp None) as [[[k sh] n]|] eqn:E; [|discriminate]. inversion H; subst k skip lexeme rest. clear H.
-  destruct (best_rule_first lexer_rules inp None NAME sh n I E) as [Hn [Hx|(r1 & r2 & Hsplit & Hm & Hf & _)]]; [discriminate|].
+  unfold lex_one_with. destruct (best_rule rules inp None) as [[[k' sh] n]|]; [|discriminate].
+  intros H; inversion H; subst. exists sh, n. auto.
+Qed.
+
+Lemma name_ok_gen (rules r1' r2' : list (kind * shape)) (words : list text) inp sh n :
+  rules = r1' ++ (NAME, SName) :: r2' -> ~ In (NAME, SName) r1' ->
+  (forall sh', In (NAME, sh') rules -> sh' = SName) ->
+  (forall s, In s words -> exists k', In (k', SCi s) r1') ->
+  best_rule rules inp None = Some (NAME, sh, n) ->
+  name_lexeme (firstn n inp) = true /\
+  existsb (fun s => Nat.eqb (length s) (length (firstn n inp)) && match m_ci s (firstn n inp) with Some _ => true | None => false end) words = false.
+Proof.
+  intros Hsplit0 Hnot Hname Hwords E.
+  destruct (best_rule_first rules inp None NAME sh n I E) as [Hn [Hx|(r1 & r2 & Hsplit & Hm & Hf & _)]]; [discriminate|].
   assert (Hsh : sh = SName).
-  { apply rule_name. rewrite Hsplit. apply in_or_app. right. left. reflexivity. }
+  { apply Hname. rewrite Hsplit. apply in_or_app. right. left. reflexivity. }
   subst sh.
-  (* r1 is the part of the table before NAME *)
-  assert (Hr1 : r1 = firstn name_index lexer_rules).
-  { rewrite rules_split_name in Hsplit at 1. symmetry in Hsplit.
-    eapply split_unique; [exact Hsplit| |exact name_not_before].
+  assert (Hr1 : r1 = r1').
+  { rewrite Hsplit0 in Hsplit. symmetry in Hsplit.
+    eapply split_unique; [exact Hsplit| |exact Hnot].
     intros Hin. rewrite Forall_forall in Hf. apply Hf in Hin. unfold mlen in Hin. cbn [snd] in Hin. rewrite Hm in Hin. lia. }
   subst r1. cbn [match_shape] in Hm. unfold m_name in Hm. destruct inp as [|c r]; [discriminate|].
   destruct (name_start c) eqn:Ec; [|discriminate]. inversion Hm; subst n. clear Hm.
-  unfold pname_ok. rewrite (name_lexeme_firstn c r Ec). cbn [andb]. apply negb_true_iff.
-  destruct (is_keyword (firstn (S (span_len name_char r)) (c :: r))) eqn:EK; [|reflexivity]. exfalso.
-  unfold is_keyword in EK. apply existsb_exists in EK. destruct EK as (s & Hs & EK).
-  apply andb_prop in EK. destruct EK as [Elen Eci]. apply Nat.eqb_eq in Elen.
-  unfold kw_words in Hs. apply in_flat_map in Hs. destruct Hs as ([k' sh'] & Hin & Hs'). cbn [snd] in Hs'.
-  destruct sh' as [| s' | | | | | |]; try contradiction. destruct Hs' as [<-|[]].
-  pose proof (kw_rules_before _ _ Hin) as Hbefore. rewrite Forall_forall in Hf. specialize (Hf _ Hbefore).
-  unfold mlen in Hf. cbn [snd match_shape] in Hf.
-  (* the word matches the whole lexeme, hence the input, with the same length *)
+  split; [apply name_lexeme_firstn; exact Ec|].
   set (lx := firstn (S (span_len name_char r)) (c :: r)) in *.
+  destruct (existsb (fun s => Nat.eqb (length s) (length lx) && match m_ci s lx with Some _ => true | None => false end) words) eqn:EK; [|reflexivity]. exfalso.
+  apply existsb_exists in EK. destruct EK as (s & Hs & EK).
+  apply andb_prop in EK. destruct EK as [Elen Eci]. apply Nat.eqb_eq in Elen.
+  destruct (Hwords s Hs) as [k' Hbefore]. rewrite Forall_forall in Hf. specialize (Hf _ Hbefore).
+  unfold mlen in Hf. cbn [snd match_shape] in Hf.
   assert (Hinp : c :: r = lx ++ skipn (S (span_len name_char r)) (c :: r)) by (symmetry; apply firstn_skipn).
-  destruct (m_ci s' lx) as [m|] eqn:Em; [|discriminate].
+  destruct (m_ci s lx) as [m|] eqn:Em; [|discriminate].
   pose proof (m_ci_len _ _ _ Em) as ->.
   rewrite Hinp, m_ci_app in Hf by lia. rewrite Em in Hf.
   assert (Hl : length lx = S (span_len name_char r)).
@@ -112,6 +121,23 @@ Proof.
     { clear. induction r as [|x r IH]; [cbn; lia|]. cbn [span_len length]. destruct (name_char x); lia. }
     lia. }
   lia.
+Qed.
+
+Lemma kw_words_before : forall s, In s kw_words -> exists k', In (k', SCi s) (firstn name_index lexer_rules).
+Proof.
+  intros s Hs. unfold kw_words in Hs. apply in_flat_map in Hs. destruct Hs as ([k' sh'] & Hin & Hs'). cbn [snd] in Hs'.
+  destruct sh' as [| s' | | | | | |]; try contradiction. destruct Hs' as [<-|[]].
+  exists k'. apply kw_rules_before. exact Hin.
+Qed.
+
+(* a NAME token is a name and no keyword *)
+Theorem lex_one_name_ok inp skip lexeme rest :
+  lex_one inp = Some (NAME, skip, lexeme, rest) -> pname_ok lexeme = true.
+Proof.
+  intros H. rewrite lex_one_unfold in H. apply lex_one_best in H. destruct H as (sh & n & E & -> & _).
+  destruct (name_ok_gen lexer_rules (firstn name_index lexer_rules) (skipn (S name_index) lexer_rules) kw_words inp sh n
+              rules_split_name name_not_before rule_name kw_words_before E) as [H1 H2].
+  unfold pname_ok, is_keyword. rewrite H1, H2. reflexivity.
 Qed.
 
 Definition tokname (t : token) : Prop := tk t = NAME -> pname_ok (tx t) = true.
